@@ -123,6 +123,7 @@ def run(case):
     try:
         regs = [Annotation() for _ in range(NREG)]
         obs = []
+        n_seturi = 0
         for o in case["ops"]:
             k = o[0]
             if k == "new":
@@ -160,7 +161,25 @@ def run(case):
                 ret = regs[o[1]].rename_labels(mapping={a_: b_ for a_, b_ in o[2]}, copy=False)
                 assert ret is regs[o[1]]
             elif k == "seturi":
-                regs[o[1]].uri = o[2]
+                # a copy taken just before keeps its own name in every timeline it hands out, and renaming the copy
+                # afterwards does not reach the original
+                a_ = regs[o[1]]
+                n_seturi += 1
+                if n_seturi % 2:
+                    a_.uri = o[2]            # (every other time without the extra reads below, which refresh caches)
+                    continue
+                old_uri = a_.uri
+                shadow = a_.copy()
+                a_.uri = o[2]
+                assert shadow.uri == old_uri and shadow.get_timeline().uri == old_uri and shadow.get_timeline(copy=False).uri == old_uri, \
+                    "renaming an annotation renamed the timeline of a copy taken before"
+                assert all(shadow.label_timeline(l).uri == old_uri for l in shadow.labels())
+                assert a_.get_timeline().uri == o[2] and a_.get_timeline(copy=False).uri == o[2]
+                shadow2 = a_.copy()
+                shadow2.uri = "zz_shadow"
+                assert a_.uri == o[2] and a_.get_timeline().uri == o[2] and a_.get_timeline(copy=False).uri == o[2], \
+                    "renaming a copy renamed the original's timeline"
+                assert all(a_.label_timeline(l, copy=False).uri == o[2] for l in a_.labels())
             elif k == "read":
                 a = regs[o[1]]
                 kind = o[2]
